@@ -213,6 +213,7 @@ def targeted(ctx):
 def run(ctx):
     streams.hist_corr(ctx, ents=ENTS, nhist=ctx.n(8, 100))
     streams.fn_corr(ctx, ents=ENTS, ncases=ctx.n(45, 600), sizes=(1, 2, 3, 5, 8, 13, 40, 60) if ctx.quick else (1, 2, 3, 5, 8, 13, 40, 60, 200))
+    streams.presentation_variants(ctx, fn_ents=ENTS, hist_ents=ENTS)
     targeted(ctx)
     fine_grid(ctx)
     exhaustive(ctx)
